@@ -18,9 +18,9 @@ MANIFEST = {
 
 INVARIANTS = ["C10_Free"]
 PROPERTIES = []
-QUICK = ["retry", "jpim"]
-THOROUGH = ["retry", "jpim", "chain2", "billing"]
-FINDINGS = [("pendrel", "jpim", ["C10_Free"])]
+QUICK = ['retry_s', 'jpim_s']
+THOROUGH = ['retry_s', 'jpim_s', 'chain2', 'billing_s', 'jpim', 'retry']
+FINDINGS = [("pendrel", "jpim_s", ["C10_Free"])]
 
 
 def run(ctx):
